@@ -42,7 +42,8 @@ def run(ctx):
     ctx.extra["configurations"] = kinds
     ctx.assumptions += [
         "global quiescence is read from runtime.Stack wait reasons (internal/qx)",
-        "the number of live lane goroutines is the number of goroutines with the package's popLoop on their stack",
+        "`alive` = some goroutine other than this harness's callers has a frame of the executor's package on its "
+        "stack (no function name assumed); `term` = the owner's sync.WaitGroup / WaitStop has returned",
         "events are logged in an order consistent with real time (inv/cancel/stopi before, ret/stopr after "
         "the call; start/end by the callee itself), so an overlap or inversion in the log is real",
         "the trace spec leaves open: hash->lane map (any function into [0,lanes), learned from IndexOf or first "
@@ -53,8 +54,10 @@ def run(ctx):
         rule="plans = TLC simulation of Lanes.tla (7 calls, kinds line/mline/runq/pchan, lanes 1,2,3,7, queue "
              "sizes 0,1,2, hashes incl. MinInt, MinInt+1, MaxInt, +-lanes) + seeded schedules (12 calls, queue "
              "sizes 0,1,2,8, random 63-bit hashes) + free-running stress (2-4 callers, concurrent cancel/Stop)",
-        explanation="callee start/end (lane index, goroutine), every caller's reply, live lane goroutines and "
-                    "termination at each quiescent point must be explained by Lanes.tla")
+        explanation="callee start/end with the lane index handed over, every caller's reply, and at each quiescent "
+                    "point 'nothing is pending', live executor goroutines and termination must be explained by "
+                    "Lanes.tla (same actions as the exhaustive runs; acceptance moments, skips and lane closing "
+                    "are inferred)")
 
 
 def describe(rj):
